@@ -236,3 +236,12 @@ VARIANTS += [
       "                use_state_dims=self.state_dims_in_j, "
       "gamma=self.gamma)", "silent"),
 ]
+
+VARIANTS += [
+    V("training-j-with-default-gamma", "moptipyapps/dynamic_control/ode.py",
+      "            c(index, ode, j_from_ode(ode, len(sp), use_state_dims, "
+      "gamma),\n              t_from_ode(ode))\n        index += 1\n\n",
+      "            c(index, ode, j_from_ode(ode, len(sp), use_state_dims),\n"
+      "              t_from_ode(ode))\n        index += 1\n\n", "fire",
+      "D10.9", "seed C10-training-j-with-default-gamma (last loop)"),
+]
